@@ -12,6 +12,7 @@ use dasp_ring_buffer::{Fixed, Slice, SliceMut};
 use dasp_rms::Rms;
 use hx_common::*;
 use serde_json::{json, Value};
+use std::fmt::Debug;
 
 pub type FF<S, const N: usize> = [<S as dasp_sample::Sample>::Float; N];
 
@@ -30,18 +31,60 @@ where
     vec![<FF<S, N> as dasp_frame::Frame>::EQUILIBRIUM; n]
 }
 
+/// A formatting sink that owns no heap memory: a fixed buffer that keeps what fits and counts the rest.
+/// It never fails, so an `Err` of a rendering is the formatted value's own doing.
+pub struct Sink {
+    buf: [u8; 1024],
+    len: usize,
+    pub total: usize,
+}
+impl Sink {
+    pub fn new() -> Sink {
+        Sink { buf: [0; 1024], len: 0, total: 0 }
+    }
+}
+impl core::fmt::Write for Sink {
+    fn write_str(&mut self, s: &str) -> core::fmt::Result {
+        let b = s.as_bytes();
+        let k = b.len().min(self.buf.len() - self.len);
+        self.buf[self.len..self.len + k].copy_from_slice(&b[..k]);
+        self.len += k;
+        self.total += b.len();
+        Ok(())
+    }
+}
+/// `{:?}` of a value of the library into a `Sink` (created outside the measured window): the Debug
+/// implementations are operations of the object too.  Logged: unit / none (the rendering returned Err) /
+/// panic, the number of bytes rendered (the text itself is nobody's business) and the heap counters.
+pub fn fmt_call<T: Debug>(t: &T) -> (Value, Value, [i64; 3]) {
+    let mut sink = Sink::new();
+    let (r, h, _) = measured(|| {
+        catch(|| {
+            use core::fmt::Write;
+            write!(sink, "{:?}", t)
+        })
+    });
+    std::hint::black_box(&sink.buf[..sink.len]);
+    let r = match r {
+        None => r_panic(),
+        Some(Ok(())) => r_unit(),
+        Some(Err(_)) => r_none(),
+    };
+    (r, json!({"len": sink.total}), h)
+}
+
 /// the result of one call on a direct detector: None = panic, Some(None) = unit, Some(Some(f)) = a frame
 pub type Ret<S, const N: usize> = Option<Option<FF<S, N>>>;
 
 /// One call of the detector's own API (measured); the frame is decoded (and its log form built) outside
 /// the measured window.  Returns (logged arguments without `i`, result, heap counters).
-pub fn direct_call<S, St, const N: usize>(rms: &mut Rms<[S; N], St>, ev: &str, op: &Value) -> (Value, Ret<S, N>, [i64; 3])
+pub fn direct_call<S, St, const N: usize>(rms: &mut Rms<[S; N], St>, ev: &str, op: &Value, sc: i32) -> (Value, Ret<S, N>, [i64; 3])
 where
     S: Fmt,
     S::Float: Fmt,
     St: Slice<Element = FF<S, N>> + SliceMut,
 {
-    let x: Option<[S; N]> = op["a"].get("x").map(|v| dec_frame::<S, N>(v));
+    let x: Option<[S; N]> = op["a"].get("x").map(|v| dec_frame_sc::<S, N>(v, sc));
     let a = match &x {
         Some(f) => json!({"x": enc_frame(f)}),
         None => json!({"z": 0}),
@@ -82,7 +125,21 @@ pub fn rms_cfg(reset: &Value, build: &str, via: &str) -> Value {
     cfg["via"] = json!(via);
     cfg["store"] = json!(cfg["store"].as_str().unwrap_or("vec"));
     cfg["src"] = json!(cfg["src"].as_str().unwrap_or("iter"));
+    // the value region the stimulus values are placed in (float formats): every decoded sample times 2^sc
+    cfg["sc"] = json!(cfg["sc"].as_i64().unwrap_or(0));
+    cfg["profile"] = json!(profile());
     cfg
+}
+/// build profile of this binary (what is logged is what is running, whatever a replayed header says)
+pub fn profile() -> &'static str {
+    if cfg!(debug_assertions) {
+        "debug"
+    } else {
+        "release"
+    }
+}
+pub fn scale_of(cfg: &Value) -> i32 {
+    cfg["sc"].as_i64().unwrap_or(0) as i32
 }
 
 /// `make` builds the ring buffer handed to Rms::new; `cl` clones a detector where its storage can be cloned.
@@ -96,10 +153,11 @@ pub fn rms_direct<S, St, const N: usize>(
 ) where
     S: Fmt,
     S::Float: Fmt,
-    St: Slice<Element = FF<S, N>> + SliceMut,
+    St: Slice<Element = FF<S, N>> + SliceMut + Debug,
 {
     let cfg = rms_cfg(reset, build, "direct");
     let n = cfg["n"].as_u64().unwrap() as usize;
+    let sc = scale_of(&cfg);
     let built = catch(move || Rms::<[S; N], St>::new(make(n)));
     let first = match built {
         None => {
@@ -141,9 +199,16 @@ pub fn rms_direct<S, St, const N: usize>(
                 insts[i] = m;
                 out.ev(ev, json!({"i": i}), r, json!({}), h);
             }
+            "rms_fmt" => match insts[i].as_ref() {
+                Some(rms) => {
+                    let (r, o, h) = fmt_call(rms);
+                    out.ev(ev, json!({"i": i}), r, o, h);
+                }
+                None => out.ev(ev, json!({"i": i}), r_panic(), json!({"len": 0}), [0, 0, 0]),
+            },
             _ => match insts[i].as_mut() {
                 Some(rms) => {
-                    let (a, r, h) = direct_call::<S, St, N>(rms, ev, op);
+                    let (a, r, h) = direct_call::<S, St, N>(rms, ev, op, sc);
                     out.ev(ev, with_i(a, i), ret_json::<S, N>(r), json!({}), h);
                 }
                 // the instance does not exist (its clone panicked)
